@@ -567,9 +567,13 @@ func (pc *PkgContracts) parseBlock(body, file string, line0 int) error {
 				if len(f) < 3 {
 					return errf("loop clause: loop N invariant|decreases expr")
 				}
-				n, err := strconv.Atoi(f[0])
-				if err != nil {
-					return errf("loop ordinal: %v", err)
+				n := -1
+				if f[0] != "*" {
+					var err error
+					n, err = strconv.Atoi(f[0])
+					if err != nil {
+						return errf("loop ordinal: %v", err)
+					}
 				}
 				cl.Loop = n
 				cl.Kind = f[1] // invariant | decreases | modifies
